@@ -614,16 +614,20 @@ Section TimeoutRounds.
   (* ================================================================ *)
   Notation live t k := (n_live (g_node t k)).
 
+  (* vb bounds the block numbers of the honest high votes: vb = n (nothing voted above block n-1)
+     or vb = n + 1 (block n may have been voted) *)
+  Variable vb : Z.
+
   Lemma tidy_step s0 t k i : preach P s0 -> (forall k', hon k' = true -> dview s0 k' <= V) ->
     NSI P s0 Bs t -> hon k = true -> round_input P (length (g_soup s0)) t i ->
     (forall q, gq (cfg 0) hon (g_soup s0) q -> hnum (cprop (qmsg q)) < n) ->
-    tidy_node P n (live t k) ->
+    tidy_node_b P n vb (live t k) ->
     let t' := absorb t k (node_input (cfg k) (g_node t k) i) in
     r_phase (live t' k) <> PCommit ->
-    tidy_node P n (live t' k) /\
+    tidy_node_b P n vb (live t' k) /\
     forall m, In m (g_soup t') -> In m (g_soup t) \/
       (m_key m = k /\ ((exists j0, m_msg m = MNewView j0) \/
-                      (exists t0, m_msg m = MTimeout t0 /\ tidy_report P n t0))).
+                      (exists t0, m_msg m = MTimeout t0 /\ tidy_report_b P n vb t0))).
   Proof.
     intros Hr0 HB0 HN Hk Hri HT0 HX t' Hph.
     destruct (input_facts P HP pay fetch Hfirst s0 Hr0 V Bs HB0 Hh1 Hh2 Hle t k i HN Hk Hri)
@@ -647,12 +651,12 @@ Section TimeoutRounds.
       rewrite Es in HS. destruct HS as (_ & _ & HT).
       destruct HT as [(Hqe & Hd)|[(qs & c & j0 & _ & _ & Hv)|(qs & rest & Ees & Hqe & (Ehv & _ & Hrest))]].
       + destruct Hd as [Hd|Hce]; [exfalso; destruct r as [?|[]|?]; cbn in *; try contradiction; discriminate|].
-        split; [apply (tidy_node_keep P HP n s0 _ s' Hr0 HT0 Hg Hg' Hle0 (proj2 (proj2 Hce)) HX)|].
+        split; [apply (tidy_node_keep_b P HP n vb s0 _ s' Hr0 HT0 Hg Hg' Hle0 (proj2 (proj2 Hce)) HX)|].
         intros m0 Hin0. rewrite Hsoup in Hin0. apply in_app_or in Hin0. destruct Hin0 as [Hin0|Hin0]; [left; exact Hin0|].
         exfalso. apply ProtocolRefinesInv.in_sends_of in Hin0. destruct Hin0 as (x & Hx & _).
         rewrite Forall_forall in Hqe. exact (Hqe _ Hx).
       + exfalso. apply Hph. apply Hv.
-      + assert (HX' : tidy_node P n s') by (apply (tidy_node_keep P HP n s0 _ s' Hr0 HT0 Hg Hg' Hle0 Ehv HX)).
+      + assert (HX' : tidy_node_b P n vb s') by (apply (tidy_node_keep_b P HP n vb s0 _ s' Hr0 HT0 Hg Hg' Hle0 Ehv HX)).
         split; [exact HX'|].
         intros m0 Hin0. rewrite Hsoup in Hin0. apply in_app_or in Hin0. destruct Hin0 as [Hin0|Hin0]; [left; exact Hin0|].
         right. apply ProtocolRefinesInv.in_sends_of in Hin0. destruct Hin0 as (x & Hx & ->). cbn [m_key m_msg]. split; [reflexivity|].
@@ -661,7 +665,7 @@ Section TimeoutRounds.
         * discriminate.
         * rewrite Forall_forall in Hrest. specialize (Hrest _ Hx). cbn [send_spec] in Hrest.
           destruct x as [? ?|?|t0|j0]; try contradiction; [right|left; eauto].
-          destruct Hrest as [_ ->]. eexists. split; [reflexivity|]. apply tidy_node_report. exact HX'.
+          destruct Hrest as [_ ->]. eexists. split; [reflexivity|]. apply tidy_node_report_b. exact HX'.
     - (* the timer *)
       destruct HR as (Hrt & (l & Hl) & HF).
       assert (HS : Sum (cfg k) hon (g_soup s0) (live t k) (rstep_t (cfg k) (live t k) ITimer)).
@@ -669,12 +673,12 @@ Section TimeoutRounds.
       rewrite Es in HS. destruct HS as (_ & _ & HT).
       destruct HT as [(Hqe & Hd)|[(qs & c & j0 & _ & _ & Hv)|(qs & rest & Ees & Hqe & (Ehv & _ & Hrest))]].
       + destruct Hd as [Hd|Hce]; [exfalso; destruct r as [?|[]|?]; cbn in *; try contradiction; discriminate|].
-        split; [apply (tidy_node_keep P HP n s0 _ s' Hr0 HT0 Hg Hg' Hle0 (proj2 (proj2 Hce)) HX)|].
+        split; [apply (tidy_node_keep_b P HP n vb s0 _ s' Hr0 HT0 Hg Hg' Hle0 (proj2 (proj2 Hce)) HX)|].
         intros m0 Hin0. rewrite Hsoup in Hin0. apply in_app_or in Hin0. destruct Hin0 as [Hin0|Hin0]; [left; exact Hin0|].
         exfalso. apply ProtocolRefinesInv.in_sends_of in Hin0. destruct Hin0 as (x & Hx & _).
         rewrite Forall_forall in Hqe. exact (Hqe _ Hx).
       + exfalso. apply Hph. apply Hv.
-      + assert (HX' : tidy_node P n s') by (apply (tidy_node_keep P HP n s0 _ s' Hr0 HT0 Hg Hg' Hle0 Ehv HX)).
+      + assert (HX' : tidy_node_b P n vb s') by (apply (tidy_node_keep_b P HP n vb s0 _ s' Hr0 HT0 Hg Hg' Hle0 Ehv HX)).
         split; [exact HX'|].
         intros m0 Hin0. rewrite Hsoup in Hin0. apply in_app_or in Hin0. destruct Hin0 as [Hin0|Hin0]; [left; exact Hin0|].
         right. apply ProtocolRefinesInv.in_sends_of in Hin0. destruct Hin0 as (x & Hx & ->). cbn [m_key m_msg]. split; [reflexivity|].
@@ -683,7 +687,7 @@ Section TimeoutRounds.
         * discriminate.
         * rewrite Forall_forall in Hrest. specialize (Hrest _ Hx). cbn [send_spec] in Hrest.
           destruct x as [? ?|?|t0|j0]; try contradiction; [right|left; eauto].
-          destruct Hrest as [_ ->]. eexists. split; [reflexivity|]. apply tidy_node_report. exact HX'.
+          destruct Hrest as [_ ->]. eexists. split; [reflexivity|]. apply tidy_node_report_b. exact HX'.
     - (* block sync *)
       rewrite rstep_t_sync_eq in Es.
       destruct (r_store_next (live t k) =? nn); inversion Es; subst s' es r.
@@ -692,17 +696,17 @@ Section TimeoutRounds.
   Qed.
 
   Hypothesis HT0 : forall q, gq (cfg 0) hon Sg q -> hnum (cprop (qmsg q)) < n.
-  Hypothesis HX : forall k, hon k = true -> tidy_node P n (live s k).
+  Hypothesis HX : forall k, hon k = true -> tidy_node_b P n vb (live s k).
   (* the honest nodes that have already timed out in view V reported nothing above block n-1 *)
   Hypothesis HXT : forall m t0, In m Sg -> m_sig_ok m = true -> hon (m_key m) = true -> m_msg m = MTimeout t0 ->
-    vnum (tview t0) = V -> tidy_report P n t0.
+    vnum (tview t0) = V -> tidy_report_b P n vb t0.
 
   (* honest commit votes on the network are those of the start; honest timeout votes for view V
      carry tidy reports *)
   Definition EG (t : gstate) : Prop :=
     (forall m c, In m (g_soup t) -> m_sig_ok m = true -> hon (m_key m) = true -> m_msg m = MCommit c -> In m Sg) /\
     (forall m t0, In m (g_soup t) -> m_sig_ok m = true -> hon (m_key m) = true -> m_msg m = MTimeout t0 ->
-       vnum (tview t0) = V -> tidy_report P n t0).
+       vnum (tview t0) = V -> tidy_report_b P n vb t0).
 
   Lemma EG_start : EG s.
   Proof.
@@ -718,7 +722,7 @@ Section TimeoutRounds.
 
   Lemma EG_step t t' : EG t ->
     (forall m, In m (g_soup t') -> In m (g_soup t) \/
-       ((forall c, m_msg m <> MCommit c) /\ (forall t0, m_msg m = MTimeout t0 -> tidy_report P n t0))) ->
+       ((forall c, m_msg m <> MCommit c) /\ (forall t0, m_msg m = MTimeout t0 -> tidy_report_b P n vb t0))) ->
     EG t'.
   Proof.
     intros [H1 H2] Hnew. split.
@@ -726,7 +730,7 @@ Section TimeoutRounds.
     - intros m t0 Hin Hsg Hh Em EV0. destruct (Hnew m Hin) as [Hold|[_ Ht]]; [eauto|]. exact (Ht t0 Em).
   Qed.
 
-  Definition TN (k : Z) (soup : list sgmsg) (nd : node) : Prop := tidy_node P n (n_live nd).
+  Definition TN (k : Z) (soup : list sgmsg) (nd : node) : Prop := tidy_node_b P n vb (n_live nd).
   Definition andNP (A B : Z -> list sgmsg -> node -> Prop) (k : Z) (soup : list sgmsg) (nd : node) : Prop :=
     A k soup nd /\ B k soup nd.
   Lemma andNP_mono A B : mono A -> mono B -> mono (andNP A B).
@@ -910,9 +914,9 @@ Section TimeoutRounds.
   Theorem timeout_mixed_tidy :
     let s2 := sync_rounds P pay fetch 2 s in
     (forall q, gq (cfg 0) hon (g_soup s2) q -> hnum (cprop (qmsg q)) < n) /\
-    (forall k, hon k = true -> tidy_node P n (live s2 k)) /\
+    (forall k, hon k = true -> tidy_node_b P n vb (live s2 k)) /\
     (forall h m, hon h = true -> In {| m_key := h; m_sig_ok := true; m_msg := MTimeout m |} (g_soup s2) ->
-       vnum (tview m) = V -> tidy_report P n m).
+       vnum (tview m) = V -> tidy_report_b P n vb m).
   Proof.
     cbv zeta. rewrite two_roundsT. destruct after_roundT2 as [HE HT].
     split; [exact (EG_T0 sT HE)|]. split; [exact HT|].
@@ -982,11 +986,16 @@ Section TimeoutRoundsPrepare.
     timeout_mixed_post P HP pay fetch Henv V n HV s Hr Bs Hh1 Hh2 Hle Hsb tp_al HnoP tp_GC tp_GT tp_tq.
 
   Hypothesis HT0 : forall q, gq (cfg 0) hon Sg q -> hnum (cprop (qmsg q)) < n.
-  Hypothesis HX : forall k, hon k = true -> tidy_node P n (live s k).
-  Lemma tp_XT m t0 : In m Sg -> m_sig_ok m = true -> hon (m_key m) = true -> m_msg m = MTimeout t0 ->
-    vnum (tview t0) = V -> tidy_report P n t0.
+  (* vb bounds the block numbers of the honest high votes *)
+  Variable vb : Z.
+  Hypothesis HXb : forall k, hon k = true -> tidy_node_b P n vb (live s k).
+  Lemma tp_XTb m t0 : In m Sg -> m_sig_ok m = true -> hon (m_key m) = true -> m_msg m = MTimeout t0 ->
+    vnum (tview t0) = V -> tidy_report_b P n vb t0.
   Proof. intros Hin Hsg Hh Em EV0. pose proof (tp_noT m t0 Hin Hsg Hh Em). lia. Qed.
 
-  Definition timeout_two_rounds_tidy :=
-    timeout_mixed_tidy P HP pay fetch Henv V n HV s Hr Bs Hh1 Hh2 Hle Hsb tp_al HnoP tp_GC tp_GT tp_tq HT0 HX tp_XT.
+  Definition timeout_two_rounds_tidy_b :=
+    timeout_mixed_tidy P HP pay fetch Henv V n HV s Hr Bs Hh1 Hh2 Hle Hsb tp_al HnoP tp_GC tp_GT tp_tq vb HT0 HXb tp_XTb.
 End TimeoutRoundsPrepare.
+
+Definition timeout_two_rounds_tidy P HP pay fetch Henv V n HV s Hr Bs Hh1 Hh2 Hle Hsb Hal HnoP HT0 HX :=
+  timeout_two_rounds_tidy_b P HP pay fetch Henv V n HV s Hr Bs Hh1 Hh2 Hle Hsb Hal HnoP HT0 n HX.
